@@ -47,6 +47,9 @@ def make_tree(case, rng):
     return t, nodes
 
 
+history_prelude = gen.history_prelude
+
+
 def ident(lst):
     return [id(x) for x in lst]
 
@@ -56,6 +59,8 @@ def run_case(case, res):
     t, nodes = make_tree(case, rng)
     typed = case.get("cls") == "typed"
     f = gen.decode(case["f"])
+    if case.get("prelude"):
+        nodes = history_prelude(t, nodes, rng_for(case.get("seed", 0), "c10-prelude", case["f"], case["lab"]), typed)
     n = len(nodes)
     nontrivial = n >= 4 and gen.height(f) >= 2 and any(len(x.children) >= 2 for x in nodes + [t._root])
     res.case(case, nontrivial=nontrivial)
@@ -115,8 +120,8 @@ def run_case(case, res):
     def attempt(fn):
         try:
             return fn()
-        except Exception as e:
-            return ("EXC", type(e).__name__)
+        except Exception:
+            return ("EXC",)  # which exception type refuses an invalid level is not constrained
 
     kw = {"any_kind": True} if typed else {}
     try:
@@ -188,7 +193,7 @@ def run_case(case, res):
                 chain = A[::-1] + [t.system_root]
                 for lvl in range(0, depth[id(x)] + 2):
                     if lvl == 0 or lvl > depth[id(x)]:
-                        exp = ("EXC", "ValueError")
+                        exp = ("EXC",)
                     else:
                         exp = chain[lvl - 1]
                     chk(f"up({lvl})", attempt(lambda: x.up(lvl)), exp, x)
@@ -225,10 +230,10 @@ NSHARDS = 16
 
 
 def shards(tier, seed):
-    bound = 7 if tier == "quick" else 8
+    bound = 7 if tier == "quick" else 9
     out = [{"name": f"enum{i}", "kind": "enum", "i": i, "bound": bound, "budget_s": 120 if tier == "quick" else 1200}
            for i in range(NSHARDS)]
-    out += [{"name": f"rand{i}", "kind": "rand", "i": i, "count": 15 if tier == "quick" else 150,
+    out += [{"name": f"rand{i}", "kind": "rand", "i": i, "count": 15 if tier == "quick" else 700,
              "budget_s": 60 if tier == "quick" else 600} for i in range(NSHARDS)]
     return out
 
@@ -245,6 +250,8 @@ def run_shard(spec, res):
                 for lab in LABELINGS:
                     for cls in (["plain", "typed"] if n <= 6 else ["plain"]):
                         run_case({"cls": cls, "f": gen.code(f), "lab": lab, "seed": seed}, res)
+                        if 1 <= n <= 6:
+                            run_case({"cls": cls, "f": gen.code(f), "lab": lab, "seed": seed, "prelude": True}, res)
                 if res.expired():
                     res.count("exhaustive_cut")
                     res.inconc("enumeration cut by time budget")
@@ -253,6 +260,7 @@ def run_shard(spec, res):
         rng = rng_for(seed, "c10-rand", spec["i"])
         for j in range(spec["count"]):
             f = gen.random_forest(rng, rng.randint(8, 30))
-            run_case({"cls": rng.choice(["plain", "typed"]), "f": gen.code(f), "lab": rng.choice(LABELINGS), "seed": seed}, res)
+            run_case({"cls": rng.choice(["plain", "typed"]), "f": gen.code(f), "lab": rng.choice(LABELINGS), "seed": seed,
+                      "prelude": rng.random() < 0.5}, res)
             if res.expired():
                 break
